@@ -38,9 +38,57 @@ type c17run struct {
 	blocked  string // the callback's own work did not get done while the launch stood at its gate
 }
 
+// c17PingDuringCall: two callers on one environment - one runs a program that takes a few seconds, the other asks
+// for a Ping meanwhile. Alone, the program ends with its exit value and the Ping succeeds; together they must too
+// (the Ping may wait for the call; it may not take anything away from it - its deadline, for instance).
+func c17PingDuringCall(c *vcore.Ctx) *vcore.Violation {
+	const prop = "C17"
+	ct, err := kBuildContainer(nil, nil, nil)
+	if err != nil {
+		vcore.Harnessf("container build: %v", err)
+	}
+	defer ct.destroy()
+	ms := 3300 + c.Src.Int(600, "call_ms")
+	after := 50 + c.Src.Int(400, "ping_after_ms")
+	c.Logf("one environment: Execve of a program that runs %d ms, a second caller's Ping %d ms into it", ms, after)
+	c.Event("ping_during_call")
+	c.Fault("second_caller_pings_during_a_call")
+	c.MarkNonTrivial()
+	var res runner.Result
+	var perr, perr2 error
+	ok := watchdog(60*time.Second, func() {
+		var wg sync.WaitGroup
+		wg.Add(2)
+		go func() {
+			defer wg.Done()
+			res, _ = ct.exec(context.Background(), &kExec{script: []string{"sleep", fmt.Sprint(ms), "exit", "7"}})
+		}()
+		go func() {
+			defer wg.Done()
+			time.Sleep(time.Duration(after) * time.Millisecond)
+			perr = ct.env.Ping()
+		}()
+		wg.Wait()
+		perr2 = ct.env.Ping()
+	})
+	if !ok {
+		return vcore.Violate(prop, "hang", "ping_during_call", "an Execve and a concurrent Ping on one environment did not both return")
+	}
+	if res.Status != runner.StatusNonzeroExitStatus || res.ExitStatus != 7 {
+		return vcore.Violate(prop, "wrong_result", "container/ping_during_call", "a program that runs %d ms and exits with 7 yields Nonzero Exit Status/7 alone; with a second caller's Ping %d ms into the call it returned %s/%d %q", ms, after, statusName(res.Status), res.ExitStatus, res.Error)
+	}
+	if perr != nil || perr2 != nil {
+		return vcore.Violate(prop, "wrong_result", "ping/ping_during_call", "Ping succeeds alone; asked for during another caller's Execve it returned %v (and afterwards %v)", perr, perr2)
+	}
+	return nil
+}
+
 func c17Run(c *vcore.Ctx) *vcore.Violation {
 	const prop = "C17"
 	src := c.Src
+	if src.Bool(1, 12, "ping_during_call") {
+		return c17PingDuringCall(c)
+	}
 	n := 2 + src.Int(9, "nruns")
 	nEnv := 1 + src.Int(2, "nenvs")
 	var envs []*kContainer
@@ -104,7 +152,9 @@ func c17Run(c *vcore.Ctx) *vcore.Violation {
 	}
 	// callbacks that do work of their own while the launch stands at its gate - start a helper process, as a
 	// callback that attaches the program to something may: nothing a launch holds may be needed for that
-	callbacksWork := src.Bool(1, 2, "callbacks_work")
+	// (only in batches without the failing-launch noise: with six goroutines launching in a loop next to it every helper
+	// process waits its turn at the fork lock, and a batch takes ten times as long)
+	callbacksWork := src.Bool(1, 2, "callbacks_work") && !noise
 	if callbacksWork {
 		c.Event("callbacks_work")
 		c.Fault("callback_starts_a_process")
